@@ -191,6 +191,10 @@ namespace ipr {
    };
    static Printer& operator<<(Printer&, xpr_primary_expr);
 
+   // Print an expression that a higher-precedence production had to enclose in parentheses.
+   // Raise Missing_overrider if no production knows how to print it.
+   static void print_enclosed_expr(Printer&, const Expr&);
+
    struct xpr_cast_expr {
    const Expr& expr;
       xpr_cast_expr(const Expr& e) : expr(e) { }
@@ -401,9 +405,15 @@ namespace ipr {
          }
          void visit(const Expr& e) override
          {
-            pp << token('(') << xpr_expr(e) << token(')');
+            if (strict)
+               Missing_overrider{ }(e);
+            pp << token('(');
+            print_enclosed_expr(pp, e);
+            pp << token(')');
          }
          void visit(const Decl& d) override { d.name().accept(*this); }
+
+         bool strict = false;       // true if falling back to a parenthesized form is not an option.
       };
 
       void
@@ -1226,7 +1236,8 @@ namespace ipr {
    // Therefore this class was moved from being a local class of subsequent
    // function to being just a regular class, which that function uses.
    struct xpr_expr_visitor : pp_base {
-      xpr_expr_visitor(Printer& p) : pp_base(p) { }
+      xpr_expr_visitor(Printer& p, bool s = false) : pp_base(p), strict{s} { }
+      const bool strict;
 
       void visit(const Comma& e) final
       {
@@ -1248,7 +1259,12 @@ namespace ipr {
       }
 
       void visit(const Type& t) final { pp << xpr_type(t); }
-      void visit(const Expr& e) final { pp << xpr_assignment_expression(e); }
+      void visit(const Expr& e) final
+      {
+         xpr::Assignment_expr impl { pp };
+         impl.strict = strict;
+         e.accept(impl);
+      }
       void visit(const Stmt& s) final { pp << xpr_stmt(s); }
       void visit(const Decl& d) final
       {
@@ -1265,6 +1281,12 @@ namespace ipr {
       xpr_expr_visitor impl(printer);
       x.expr.accept(impl);
       return printer;
+   }
+
+   static void print_enclosed_expr(Printer& printer, const Expr& e)
+   {
+      xpr_expr_visitor impl(printer, true);
+      e.accept(impl);
    }
 
    //  -- Types --
